@@ -34,6 +34,7 @@ type lpH struct {
 	out     [][3]int64 // requests received and not yet answered
 	served  [][3]int64
 	blocked bool
+	dirty   bool // the scripted peer has rejected a request or sent a block nobody asked for
 	gone    bool
 }
 
@@ -493,6 +494,7 @@ func (h *leechH) step() {
 			h.serve(p, true)
 		}
 	case x < 72: // unsolicited / hostile block
+		q.dirty = true
 		s := h.v.Snapshot()
 		idx := r.Int63n(np)
 		if s.Peers[p].DownloadPiece >= 0 && r.Intn(4) > 0 {
@@ -515,6 +517,7 @@ func (h *leechH) step() {
 		}
 		h.send(p, 7, h.pieceFrame(idx, begin, n, r.Intn(4) > 0))
 	case x < 76: // duplicate of a served block
+		q.dirty = true
 		if len(q.served) > 0 {
 			o := q.served[r.Intn(len(q.served))]
 			h.send(p, 7, h.pieceFrame(o[0], o[1], o[2], r.Intn(2) == 0))
@@ -534,6 +537,7 @@ func (h *leechH) step() {
 		}
 		h.record(e, 11)
 	case x < 90: // reject a request
+		q.dirty = true
 		if len(q.out) > 0 && q.fast {
 			i := r.Intn(len(q.out))
 			o := q.out[i]
@@ -743,7 +747,9 @@ func (h *leechH) finish() {
 		h.pumpWrite()
 	}
 	// the seed is still there, unchoking, nothing is left to serve and nobody else is connected
-	if alone && !h.armed && h.usable(p) && len(h.peers[p].out) == 0 && !h.v.WriteInFlight() && h.note["msgtimeout"] == 0 && h.note["writetimeout"] == 0 {
+	// ... and it has been honest all along: the property promises completion given an honest source, not given
+	// a peer that rejected requests or sent blocks nobody asked for and behaves from now on
+	if alone && !h.armed && !h.peers[p].dirty && h.usable(p) && len(h.peers[p].out) == 0 && !h.v.WriteInFlight() && h.note["msgtimeout"] == 0 && h.note["writetimeout"] == 0 {
 		h.expect = true
 	}
 }
